@@ -4,9 +4,9 @@ spec/Wire.tla         layout tables (NTP, CSPTP message / request TLV / response
                       NTS extension fields, server cookies, NTS-KE record encoding
 spec/NtsKeStream.tla  ntske.ReadData reading through bufio from a transport that segments the stream
 
-1. TLC decides the property section on the repaired variants of both modules (exhaustive, small scope) and
-   shows the counterexamples of the variants that model the code as written (switches
-   PlaceholderTypedAsCookie / ShortCookieRead) - information only, never a verdict.
+1. TLC decides the property section on both modules (exhaustive, small scope; switches PlaceholderTypedAsCookie /
+   ShortCookieRead = FALSE = the code).  Spec self-test: with the old switches (the code before fixes 69cd14a /
+   b190383, *_faithful.cfg) TLC must find the violation - never a verdict about the code.
 2. TLC enumerates the cases (field x value class / sweep, packet shapes, cookie shapes, first bytes) and the
    behaviours (message x segmentation) that harness/c14 replays on the real codecs.
 3. WireTrace.tla / NtsKeStreamTrace.tla validate what the real code did: monitor = property section
@@ -78,7 +78,8 @@ def rec_weight(r):
 def wire_class(r):
     k = r.get("k")
     if k == "lay":
-        return "lay %s.%s" % (r["m"], r["f"])
+        # the field(s) that did not survive; the swept field itself when nothing else is known
+        return "lay %s.%s" % (r["m"], "+".join(r.get("diff") or [r["f"]]))
     if k == "layb":
         return "layb %s" % r["m"]
     if k == "nts":
@@ -102,7 +103,7 @@ def replay_of(r):
         return dict(kind="nts", src=r["src"], uid=len(i["uid"]), ck=[len(c) for c in i["ck"]], ph=[len(c) for c in i["ph"]],
                     pt=[len(c) for c in i["pt"]])
     if r["k"] == "lay":
-        return {k: r[k] for k in ("k", "m", "ssds", "base", "f", "w", "off", "mode", "vs")}
+        return {k: r[k] for k in ("k", "m", "ssds", "base", "f", "w", "off", "mode", "pre", "vs")}
     return r
 
 
@@ -153,7 +154,7 @@ def monitor_all(ctx, pool, module, spec, consts, invs, recs, trace_name, classif
 # choice of the displayed counterexample only (never the verdict)
 LOOKS_LIKE = {
     "RSegmentationIndependent": lambda r: r["data"] != r["data0"] or r["err"] != r["err0"],
-    "RNtsKinds": lambda r: r["encerr"] == "nil" and (len(r["dec"]["ck"]) != len(r["in"]["ck"]) or len(r["dec"]["ph"]) != len(r["in"]["ph"])),
+    "RNtsKinds": lambda r: r.get("k") == "nts" and r["encerr"] == "nil" and (len(r["dec"]["ck"]) != len(r["in"]["ck"]) or len(r["dec"]["ph"]) != len(r["in"]["ph"])),
 }
 
 
@@ -178,14 +179,16 @@ def strict_all(ctx, pool, module, spec, consts, invs, recs, trace_name, limit, t
 def run(ctx):
     q = ctx.quick
     ctx.specdir()
-    pool = ThreadPoolExecutor(max_workers=4 if q else 5)
+    top = ThreadPoolExecutor(max_workers=12)      # independent TLC runs / the two drivers, side by side
+    lanes = ThreadPoolExecutor(max_workers=4)     # trace validation: pieces of a trace in private directories
     try:
-        return _run(ctx, q, pool)
+        return _run(ctx, q, top, lanes)
     finally:
-        pool.shutdown(wait=True)
+        top.shutdown(wait=True)
+        lanes.shutdown(wait=True)
 
 
-def _run(ctx, q, pool):
+def _run(ctx, q, pool, lanes):
     # 1 + 2. design level, and the case / behaviour generators (independent TLC runs, side by side)
     f_wgen = pool.submit(ctx.tlc, "WireMC", "Wire_gen.cfg" if q else "Wire_gendeep.cfg", workers=1, timeout=900, tag="gen")
     kgens = ["NtsKeStream_gen.cfg"] if q else ["NtsKeStream_gendeep.cfg", "NtsKeStream_gendeep4.cfg", "NtsKeStream_genwide.cfg"]
@@ -200,10 +203,10 @@ def _run(ctx, q, pool):
     if len(wcases) < 1000 or len(kcases) < 3000:
         raise vlib.Inconclusive("case generators produced only %d wire cases / %d stream behaviours" % (len(wcases), len(kcases)))
     ctx.log("TLC generated %d codec cases and %d (message, segmentation) behaviours" % (len(wcases), len(kcases)))
-    # the variants that model the code as written: counterexamples on the specification are information
-    f_wfa = pool.submit(ctx.tlc, "WireMC", "Wire_faithful.cfg", workers=2, timeout=600, allow_violation=True, tag="as-written")
+    # the variants with the old switches (the code before the two fixes): spec self-test, see below
+    f_wfa = pool.submit(ctx.tlc, "WireMC", "Wire_faithful.cfg", workers=2, timeout=600, allow_violation=True, tag="selftest-old-switches")
     f_kfa = pool.submit(ctx.tlc, "NtsKeStreamMC", "NtsKeStream_faithful.cfg", workers=2, timeout=600, allow_violation=True,
-                        tag="as-written")
+                        tag="selftest-old-switches")
 
     # 3. the real codecs
     wp, kp = ctx.path("wcases.ndjson"), ctx.path("kcases.ndjson")
@@ -211,7 +214,8 @@ def _run(ctx, q, pool):
     vlib.write_ndjson(kp, kcases)
     f_wdrv = pool.submit(ctx.godriver, "c14", "TestC14Wire$", out_name="wire_rec.ndjson", cases=wp, timeout=900)
     wtrace, wout = f_wdrv.result()
-    ktrace, kout = ctx.godriver("c14", "TestC14Ke$", out_name="ke_rec.ndjson", cases=kp, timeout=900)
+    f_kdrv = pool.submit(ctx.godriver, "c14", "TestC14Ke$", out_name="ke_rec.ndjson", cases=kp, timeout=900)
+    ktrace, kout = f_kdrv.result()
     wrecs = vlib.read_ndjson(wtrace)
     krecs = vlib.read_ndjson(ktrace)
     kinds = {}
@@ -226,43 +230,50 @@ def _run(ctx, q, pool):
             raise vlib.Inconclusive("driver produced no %s record" % k)
     if not modes.get("mem") or not modes.get("tls"):
         raise vlib.Inconclusive("driver produced no in-memory / no TLS stream read")
-    nvals = sum(len(r["vs"]) for r in wrecs if r["k"] == "lay")
-    if nvals == 0 or any(not all(r["canon"]) for r in wrecs if r["k"] == "lay"):
+    nvals = sum(len(r["fl"]) for r in wrecs if r["k"] == "lay")
+    if nvals == 0 or any(not all(x & 1 for x in r["fl"]) for r in wrecs if r["k"] == "lay"):
         raise vlib.Inconclusive("layout records without claimed values")
 
     for f, what in f_exh:
         r = f.result()
-        ctx.log("TLC exhaustive %s (%s): %d distinct states, property section holds on the repaired variant" %
+        ctx.log("TLC exhaustive %s (%s): %d distinct states, property section holds" %
                 (what, r["cfg"], r["distinct"]))
+    # spec self-test: the variants with the old switches must be rejected by the property section
     for f, what, sw in ((f_wfa, "Wire", "PlaceholderTypedAsCookie"), (f_kfa, "NtsKeStream", "ShortCookieRead")):
         r = f.result()
-        ctx.notes.append("spec level: %s with %s=TRUE (code as read) %s" %
-                         (what, sw, "violates " + r["violated"] if r["violated"] else "satisfies the property section"))
+        if not r["violated"]:
+            raise vlib.Inconclusive("spec self-test: %s with %s=TRUE satisfies the property section (the property section or "
+                                    "the bounds of %s have lost their teeth)" % (what, sw, r["cfg"]))
+        ctx.notes.append("spec self-test: %s with %s=TRUE (the code before the fix) violates %s, as it must" % (what, sw, r["violated"]))
         ctx.log(ctx.notes[-1])
 
     # 4. code -> spec
-    limit = 6_000_000
+    limit = 6_000_000 if q else 16_000_000      # bytes of ndjson per TLC run
     tmo = 900
-    outer = ThreadPoolExecutor(max_workers=5)
-    f_wm = outer.submit(monitor_all, ctx, pool, "WireTrace", "TSpec", [], WIRE_MON, wrecs, "wire_trace.ndjson", wire_class, limit, tmo)
-    f_km = outer.submit(monitor_all, ctx, pool, "NtsKeStreamTrace", "MonSpec", ["ShortCookieRead = FALSE"], KE_MON, krecs,
+    outer = pool
+    f_wm = outer.submit(monitor_all, ctx, lanes, "WireTrace", "TSpec", [], WIRE_MON, wrecs, "wire_trace.ndjson", wire_class, limit, tmo)
+    f_km = outer.submit(monitor_all, ctx, lanes, "NtsKeStreamTrace", "MonSpec", ["ShortCookieRead = FALSE"], KE_MON, krecs,
                         "ke_trace.ndjson", ke_class, limit, tmo)
-    f_ws = outer.submit(strict_all, ctx, pool, "WireTrace", "TSpec", [], WIRE_STRICT, wrecs, "wire_trace.ndjson", limit, tmo)
-    f_ks1 = outer.submit(strict_all, ctx, pool, "NtsKeStreamTrace", "StrictSpec", ["ShortCookieRead = TRUE"], KE_STRICT, krecs,
-                         "ke_trace.ndjson", limit, tmo)
-    try:
-        nw, wfound = f_wm.result()
-        nk, kfound = f_km.result()
-        d, d1 = f_ws.result(), f_ks1.result()
-        d2 = None
-        if d1 is not None:       # not the code as written: is it the repaired variant?
-            d2 = strict_all(ctx, pool, "NtsKeStreamTrace", "StrictSpec", ["ShortCookieRead = FALSE"], KE_STRICT, krecs,
-                            "ke_trace.ndjson", limit, tmo)
-    finally:
-        outer.shutdown(wait=True)
+    f_ws = outer.submit(strict_all, ctx, lanes, "WireTrace", "TSpec", [], WIRE_STRICT, wrecs, "wire_trace.ndjson", limit, tmo)
+    # strict, stream reader: the variant a glance at the records suggests is tried first (order only; the
+    # other one is tried when it does not explain every read)
+    first = any(r["data"] != r["data0"] or r["err"] != r["err0"] for r in krecs)
+    ks = {}
+
+    def ke_strict():
+        for sw in (first, not first):
+            ks[sw] = strict_all(ctx, lanes, "NtsKeStreamTrace", "StrictSpec", ["ShortCookieRead = %s" % str(sw).upper()],
+                                KE_STRICT, krecs, "ke_trace.ndjson", limit, tmo)
+            if ks[sw] is None:
+                break
+    f_ks = outer.submit(ke_strict)
+    nw, wfound = f_wm.result()
+    nk, kfound = f_km.result()
+    f_ks.result()
+    d = f_ws.result()
     for (inv, cls), bad in sorted(wfound.items()):
         extra = ""
-        if bad["k"] == "nts":
+        if bad["k"] == "nts" and inv == "RNtsKinds":
             n = sum(1 for r in wrecs if r["k"] == "nts" and r["encerr"] == "nil" and
                     (len(r["dec"]["ck"]) != len(r["in"]["ck"]) or len(r["dec"]["ph"]) != len(r["in"]["ph"])))
             extra = " [%d of %d NTS packets decode with different numbers of cookies/placeholders than encoded; this one: " \
@@ -271,10 +282,10 @@ def _run(ctx, q, pool):
         ctx.violation("C14 %s %s" % (inv, cls), "real codec output violates %s%s: %s" % (inv, extra, short(bad)), replay_of(bad))
     for (inv, cls), bad in sorted(kfound.items()):
         n = sum(1 for r in krecs if r["data"] != r["data0"] or r["err"] != r["err0"])
+        extra = "%d of %d reads differ from the unsegmented read; " % (n, len(krecs)) if inv == "RSegmentationIndependent" else ""
         ctx.violation("C14 %s %s" % (inv, cls),
-                      "real ntske.ReadData violates %s [%d of %d reads differ from the unsegmented read; this one: cuts %s -> "
-                      "%s / %s, in one piece -> %s / %s]: %s" % (inv, n, len(krecs), bad["cuts"], bad["data"], bad["err"],
-                                                              bad["data0"], bad["err0"], short(bad)), replay_of(bad))
+                      "real ntske.ReadData violates %s [%sthis one: cuts %s -> %s / %s, in one piece -> %s / %s]: %s" %
+                      (inv, extra, bad["cuts"], bad["data"], bad["err"], bad["data0"], bad["err0"], short(bad)), replay_of(bad))
 
     # strict: which variant of the specification explains the code
     variant = {}
@@ -285,14 +296,14 @@ def _run(ctx, q, pool):
         return r["enc"][o] * 256 + r["enc"][o + 1]
     ph = {ph_type(r) for r in wrecs if r["k"] == "nts" and r["encerr"] == "nil" and r["in"]["ph"]}
     variant["PlaceholderTypedAsCookie"] = {0x204: True, 0x304: False}.get(next(iter(ph)), "?") if len(ph) == 1 else "?"
-    if d1 is None:
+    if ks.get(True, 0) is None:
         variant["ShortCookieRead"] = True
-    elif d2 is None:
+    elif ks.get(False, 0) is None:
         variant["ShortCookieRead"] = False
     else:
         variant["ShortCookieRead"] = "?"
         ctx.drift.append("stream read explained by neither variant of NtsKeStream.tla (as written: %s on %s; repaired: %s on %s)" %
-                         (d1[0], short(d1[1], 300), d2[0], short(d2[1], 300)))
+                         (ks[True][0], short(ks[True][1], 300), ks[False][0], short(ks[False][1], 300)))
     ctx.notes.append("implementation matches specification variant %s" % variant)
     ctx.log(ctx.notes[-1])
 
@@ -318,14 +329,21 @@ def _run(ctx, q, pool):
 
     def key(r):
         if "k" in r:
-            return json.dumps([r.get(x) for x in ("k", "m", "ssds", "base", "f", "mode", "vs", "b", "x", "in", "keyid", "src")],
+            return json.dumps([r.get(x) for x in ("k", "m", "ssds", "base", "f", "mode", "pre", "vs", "b", "x", "in", "keyid", "src")],
                               sort_keys=True)
         return json.dumps([r["mode"], r["stream"], r["cuts"]])
-    distinct = len({key(r) for r in wrecs}) + len({key(r) for r in krecs})
+    # distinct non-trivial evaluations: distinct (message, field, condition, base pattern, value) observations of
+    # the layout codecs + distinct other records (kind, inputs) + distinct (stream, observed segmentation) reads
+    layvals = set()
+    for r in wrecs:
+        if r["k"] == "lay":
+            for i in range(len(r["fl"])):
+                v = tuple(r["vs"][i]) if r["mode"] == "classes" else tuple(r["pre"]) + (i,)
+                layvals.add((r["m"], r["f"], r["ssds"], r["base"] if r["base"] != "rand" else json.dumps(r["vals0"], sort_keys=True), v))
+    distinct = len(layvals) + len({key(r) for r in wrecs if r["k"] != "lay"}) + len({key(r) for r in krecs})
     small = [r for r in wrecs if r["k"] in ("lvm", "sck") and rec_weight(r) < 1500][:2] + \
             [r for r in wrecs if r["k"] == "nts" and rec_weight(r) < 2500][:1] + \
-            [dict(r, vs=r["vs"][:4], eb=r["eb"][:4], db=r["db"][:4], err=r["err"][:4], rt=r["rt"][:4], re=r["re"][:4],
-                  neg=r["neg"][:4], rest=r["rest"][:4], canon=r["canon"][:4], declen=r["declen"][:4], note="first 4 values shown")
+            [dict(r, vs=r["vs"][:4], eb=r["eb"][:4], db=r["db"][:4], fl=r["fl"][:4], declen=r["declen"][:4], note="first 4 values shown")
              for r in wrecs if r["k"] == "lay" and r["mode"] == "classes"][:1] + \
             [r for r in krecs if r["mode"] == "mem" and len(r["cuts"]) > 1 and rec_weight(r) < 1500][:2] + \
             [r for r in krecs if r["mode"] == "tls" and rec_weight(r) < 1500][:1]
@@ -366,7 +384,7 @@ def selftest(ctx, wrecs, krecs):
         raise vlib.Inconclusive("selftest: no suitable record")
 
     tests = []
-    r = first(lambda r: r["k"] == "lay" and r["w"] == 2 and all(r["rt"]), wrecs)
+    r = first(lambda r: r["k"] == "lay" and r["w"] == 2 and all(x & 7 == 7 for x in r["fl"]), wrecs)
     r["db"][3][1] ^= 1
     tests.append(("WireTrace", "TSpec", [], WIRE_MON, r, "wire_trace.ndjson", "RLayRoundTrip"))
     r = first(lambda r: r["k"] == "lvm", wrecs)
@@ -382,10 +400,15 @@ def selftest(ctx, wrecs, krecs):
     r = first(lambda r: r["data"] == r["data0"] and r["err"] == r["err0"], krecs)
     r["data"]["port"] += 1
     tests.append(("NtsKeStreamTrace", "MonSpec", ["ShortCookieRead = FALSE"], KE_MON, r, "ke_trace.ndjson", "RSegmentationIndependent"))
+    # a removed event: the reader must have made a transport read the record no longer shows (strict mode)
+    r = first(lambda r: r["mode"] == "mem" and len(r["cuts"]) >= 3 and r["err"] == "nil" and
+              not any(x["t"] == "ck" for x in r["recs"]), krecs)
+    del r["cuts"][-1]
+    tests.append(("NtsKeStreamTrace", "StrictSpec", ["ShortCookieRead = FALSE"], KE_STRICT, r, "ke_trace.ndjson", None))
     for module, spec, consts, invs, rec, tn, want in tests:
         lane = Lane(ctx)
         ok, l, inv, out = lane.validate(module, spec, consts, invs, [rec], tn, 300)
-        if ok or inv != want:
+        if ok or (want is not None and inv != want):
             raise vlib.Inconclusive("selftest: corrupted %s record not rejected by %s (got %r)" % (rec.get("k", "ke"), want, inv))
         print("SELFTEST corrupted %s record rejected by %s" % (rec.get("k", "ke"), inv), flush=True)
     pool.shutdown()
